@@ -101,6 +101,28 @@ def observe(opt, style, truecolor):
     return r, {"fg": [-1], "bg": [-1], "at": [], "row": b""}
 
 
+def pal_rgb(n):
+    """RGB value of entry n (16..255) of the 256-colour palette: 6 x 6 x 6 cube, then the grey ramp."""
+    if n < 232:
+        n -= 16
+        lv = [0, 95, 135, 175, 215, 255]
+        return lv[n // 36], lv[n // 6 % 6], lv[n % 6]
+    g = 8 + 10 * (n - 232)
+    return g, g, g
+
+
+def pal_entries(ws):
+    """Palette entries with exactly the RGB value of the first colour word, if that is a direct colour."""
+    for w in ws:
+        try:
+            k = lex_word(w)
+        except ValueError:
+            continue
+        if k["k"] == "color":
+            return [n for n in range(16, 256) if list(pal_rgb(n)) == k["v"]] if len(k["v"]) == 3 else []
+    return []
+
+
 def companion(ws):
     """The line style next to an emphasis / non-emphasis style under test: the same string with the first colour
     flipped between `normal` and `syntax`, so that the two paint alike wherever that is possible."""
@@ -207,6 +229,10 @@ def run(tier):
                 for comp in ((True, False) if "emph" in opt else (False,)):    # (the line style left at its default, too)
                     jobs.append((ws, opt, "always" if (i + len(ctx)) % 3 else "never", ("ctx", ctx, comp)))
 
+    # 256-colour mode: a direct colour that is exactly an entry of the palette (colour cube, grey ramp) comes out as that entry
+    for n in range(16, 256):
+        jobs.append((["#%02x%02x%02x" % pal_rgb(n)], ["plus-style", "minus-style", "zero-style", "file-style"][n % 4], "never", False))
+
     def one(job):
         ws, opt, tc, rt = job
         if isinstance(rt, tuple):
@@ -238,7 +264,8 @@ def run(tier):
             continue
         events.append({"run": i, "ws": [lex_word(w) for w in ws], "rejected": rejected,
                        "fg": obs["fg"] if obs else [], "bg": obs["bg"] if obs else [], "at": obs["at"] if obs else [],
-                       "exact": tc == "always", "rt": rtv, "theme": isinstance(rt, tuple) and E_CONTEXTS[rt[1]][1]})
+                       "exact": tc == "always", "rt": rtv, "theme": isinstance(rt, tuple) and E_CONTEXTS[rt[1]][1],
+                       "pal": pal_entries(ws)})
     if notfound > len(jobs) // 50:
         raise core.ToolError(f"the painted token was not found in {notfound} outputs")
     # decoration styles: letter case and quoting must not matter (relational: same rendering as the lower-case form)
